@@ -318,7 +318,7 @@ impl Appender {
 struct SharedLogger {
     root: ConfiguredLogger,
     appenders: Vec<Appender>,
-    err_handler: Box<dyn Send + Sync + Fn(&anyhow::Error)>,
+    err_handler: Arc<dyn Send + Sync + Fn(&anyhow::Error)>,
 }
 
 impl fmt::Debug for SharedLogger {
@@ -342,6 +342,13 @@ impl SharedLogger {
     fn new_with_err_handler(
         config: config::Config,
         err_handler: Box<dyn Send + Sync + Fn(&anyhow::Error)>,
+    ) -> SharedLogger {
+        Self::new_with_shared_err_handler(config, Arc::from(err_handler))
+    }
+
+    fn new_with_shared_err_handler(
+        config: config::Config,
+        err_handler: Arc<dyn Send + Sync + Fn(&anyhow::Error)>,
     ) -> SharedLogger {
         let (appenders, root, mut loggers) = config.unpack();
 
@@ -472,7 +479,10 @@ pub struct Handle {
 impl Handle {
     /// Sets the logging configuration.
     pub fn set_config(&self, config: Config) {
-        let shared = SharedLogger::new(config);
+        // the error handler belongs to the logger, not to the configuration it happens to run: a logger created
+        // with `init_config_with_err_handler` keeps reporting to that handler after a reconfiguration
+        let err_handler = self.shared.load().err_handler.clone();
+        let shared = SharedLogger::new_with_shared_err_handler(config, err_handler);
         #[cfg(feature = "verif_hooks")]
         crate::verif::sync_point("set_config.built", 0);
         log::set_max_level(shared.root.max_log_level());
